@@ -20,8 +20,9 @@ use std::time::Duration;
 enum Scenario {
     /// m concurrent calls (+1 notify) with the given pads; the peer accepts `stall` bytes, then everything
     ClientWriters { kind: Kind, pads: Vec<usize>, stall: Option<usize> },
-    /// call A (large) is abandoned after exactly `k` bytes were accepted; then call B
-    ClientAbandon { kind: Kind, k: usize },
+    /// call A (large) is abandoned after exactly `k` bytes were accepted; call B is issued after
+    /// the abandonment, or (queued) was already waiting for the writer when A was abandoned
+    ClientAbandon { kind: Kind, k: usize, queued: bool },
     /// AsyncServer with a write timeout: response stalls after `k` bytes past the deadline
     AsyncServerWriteTimeout { k: usize, pipelined: bool },
     /// AsyncServer, pipelined requests, response stream stalled after `k` bytes then released
@@ -55,7 +56,8 @@ fn scenarios(tier: Tier) -> Vec<Scenario> {
         }
         v.push(Scenario::ClientWriters { kind, pads: vec![0, 0, 0, 0], stall: Some(10) });
         for k in [0usize, 1, 10, 47, 48, 49, 50, 66, 5000, cap - 1, cap, cap + 1, 2 * cap, 19_000] {
-            v.push(Scenario::ClientAbandon { kind, k });
+            v.push(Scenario::ClientAbandon { kind, k, queued: false });
+            v.push(Scenario::ClientAbandon { kind, k, queued: true });
         }
     }
     for k in [0usize, 1, 47, 48, 50, 51, 4096, cap - 1, cap, cap + 1, 15_000, 20_049] {
@@ -139,9 +141,9 @@ async fn client_writers(kind: Kind, pads: &[usize], stall: Option<usize>) -> (Ba
     (bad, flags | 2)
 }
 
-async fn client_abandon(kind: Kind, k: usize) -> (Bad, u64) {
+async fn client_abandon(kind: Kind, k: usize, queued: bool) -> (Bad, u64) {
     let mut bad = Bad::new();
-    let ctx = format!("{} abandoned after {k} bytes", kind.name());
+    let ctx = format!("{} abandoned after {k} bytes (next call {})", kind.name(), if queued { "already queued on the writer" } else { "issued afterwards" });
     let Conn { cli, mut peer, .. } = clients::connect(kind).await;
     peer.ctl().a_to_b.set_credit(Some(k));
     let a = tokio::spawn(cli.call(1, None, 20_000));
@@ -151,11 +153,21 @@ async fn client_abandon(kind: Kind, k: usize) -> (Bad, u64) {
     if !a.is_finished() && peer.ctl().a_to_b.stalls() > 0 {
         flags |= 4; // really interrupted mid-write
     }
+    // the other caller either already waits for the writer, or comes later
+    let b_early = if queued {
+        let h = tokio::spawn(cli.call(2, None, 0));
+        memstream::settle().await;
+        Some(h)
+    } else {
+        None
+    };
     a.abort();
     let _ = a.await;
     memstream::settle().await;
-    // a later caller, then the peer resumes reading
-    let b = tokio::spawn(cli.call(2, None, 0));
+    let b = match b_early {
+        Some(h) => h,
+        None => tokio::spawn(cli.call(2, None, 0)),
+    };
     memstream::settle().await;
     peer.ctl().a_to_b.set_credit(None);
     memstream::settle().await;
@@ -503,7 +515,7 @@ fn blocking_client_write_timeout() -> (Bad, u64) {
 fn run_one(rt: &tokio::runtime::Runtime, sc: &Scenario) -> (Bad, u64) {
     match sc {
         Scenario::ClientWriters { kind, pads, stall } => rt.block_on(client_writers(*kind, pads, *stall)),
-        Scenario::ClientAbandon { kind, k } => rt.block_on(client_abandon(*kind, *k)),
+        Scenario::ClientAbandon { kind, k, queued } => rt.block_on(client_abandon(*kind, *k, *queued)),
         Scenario::AsyncServerWriteTimeout { k, pipelined } => rt.block_on(async_server_write_timeout(*k, *pipelined)),
         Scenario::AsyncServerStall { k, n } => rt.block_on(async_server_stall(*k, *n)),
         Scenario::WsServerMixed { n, stall } => {
